@@ -238,6 +238,46 @@ func init() {
 	}})
 }
 
+func init() {
+	// C12, second profile: the imported stream starts beyond every id the concurrent writes can take, so
+	// whether the import is accepted depends only on the state of the ledger under the ledger lock, never
+	// on an id collision. The stream is a suffix of a history of independent transactions (world -> fresh
+	// account) and log hashing is off, so the suffix is importable on its own.
+	register(Profile{Property: "C12", Name: "import-beyond-writes", Gen: func(r *RNG, seed uint64, tier string) (*Scenario, *ExploreCfg) {
+		sc := &Scenario{Property: "C12", Profile: "import-beyond-writes", Knobs: randomKnobs(r), Checks: []string{"import-exclusive", "logs-match-ops", "replay", "no-leaked-locks"}, Params: map[string]string{}}
+		sc.Knobs.HashLogs = "DISABLED"
+		g := &gen{r: r, sc: sc}
+		feats := ledgerFeatures(sc.Knobs)
+		sc.Setup = []Op{{ID: g.id("s"), Kind: KCreateLedger, Ledger: "src", Feats: feats}}
+		for i := 0; i < 9; i++ {
+			sc.Setup = append(sc.Setup, Op{ID: g.id("h"), Kind: KPostings, Ledger: "src", Postings: []PostingSpec{{"world", fmt.Sprintf("g:%d", i), "10", "USD"}}})
+		}
+		sc.Setup = append(sc.Setup, Op{ID: g.id("s"), Kind: KExport, Ledger: "src"}, Op{ID: g.id("s"), Kind: KCreateLedger, Ledger: "dst", Feats: feats})
+		if r.Bool() {
+			sc.Setup = append(sc.Setup, Op{ID: g.id("s"), Kind: KImport, Ledger: "dst", From: "src", ImportTo: 2, Chunked: 1 << 20})
+		}
+		imp := Op{ID: "c0.0", Kind: KImport, Ledger: "dst", From: "src", ImportFrom: 6 + r.Intn(3), Chunked: Pick(r, []int{64, 300, 1 << 20})}
+		clients := [][]Op{{imp}}
+		nw := 1 + r.Intn(2)
+		for c := 1; c <= nw; c++ {
+			op := Op{ID: fmt.Sprintf("c%d.0", c), Ledger: "dst", Kind: KPostings, Postings: []PostingSpec{{"world", fmt.Sprintf("w:%d", c), "7", "USD"}}}
+			if r.Chance(0.3) {
+				op = Op{ID: op.ID, Ledger: "dst", Kind: KBulk, Atomic: r.Bool()}
+				op.Elements = append(op.Elements, Op{ID: g.id("e"), Kind: KPostings, Ledger: "dst", Postings: []PostingSpec{{"world", fmt.Sprintf("w:%d:0", c), "2", "USD"}}})
+			}
+			clients = append(clients, []Op{op})
+		}
+		sc.Clients = clients
+		sc.Post = []Op{{ID: g.id("p"), Kind: KImport, Ledger: "dst", From: "src", ImportFrom: 9, Chunked: 1 << 20},
+			{ID: g.id("p"), Kind: KPostings, Ledger: "dst", Postings: []PostingSpec{{"world", "after", "1", "USD"}}}}
+		ex := defaultExplore(seed, 0, 0)
+		if r.Chance(0.25) {
+			ex = defaultExplore(seed, 0.03, 1, FStmtErr, FConnLost, FCommitClean, FDisconnect)
+		}
+		return sc, ex
+	}})
+}
+
 // filterExport keeps the logs of an export stream whose id is within [from, to] (0 = unbounded).
 func filterExport(stream string, from, to int) string {
 	if from == 0 && to == 0 {
